@@ -276,6 +276,18 @@ def d2_creators(ctx):
     n = 0
     for spec in ('array.asarray', 'raggedarray.asraggedarray'):
         f = ctx.repo.func(spec)
+        # metadata given at creation REPLACE whatever metadata.json an overwritten array left behind: a creator that
+        # hands them to MetaData.update / item assignment merges them into the old file instead
+        merges = [n_ for n_ in own_nodes(f.node) if isinstance(n_, ast.Call) and isinstance(n_.func, ast.Attribute) and
+                  n_.func.attr in ('update', 'setdefault') and norm(n_.func.value).endswith(('.metadata', '._metadata'))]
+        merges += [n_ for n_ in own_nodes(f.node) if isinstance(n_, ast.Subscript) and isinstance(n_.ctx, ast.Store) and
+                   norm(n_.value).endswith(('.metadata', '._metadata'))]
+        if merges:
+            n += 1
+            ctx.bad('R-SIB', 'D2', f, merges[0], 'creator-meta-replaces', f'{f.qualname}: metadata given at creation replace any '
+                    f'metadata.json that is already at the path',
+                    detail=f'`{norm(merges[0])[:60]}` is a read-modify-write of the metadata file: with overwrite=True the keys of '
+                           f'the overwritten array that are not in the new dictionary survive')
         for call, data in _write_sites(ctx, f):
             n += 1
             var = data.id if isinstance(data, ast.Name) else None
